@@ -231,7 +231,8 @@ pub fn run(report: &Report, thorough: bool) -> Evidence {
             // a second (edit, update-engine) round after the first one, for the histories of <= 1 step
             let second: Vec<Option<Edit>> = if phonetic_involved && befores[bi].len() <= 1 && c1.is_phonetic() && c2.is_phonetic() {
                 let mut v: Vec<Option<Edit>> = vec![None];
-                v.extend(edits.iter().skip(1).map(|e| Some(*e)));
+                // (quick tier: three representative second edits - another document, a truncated one, removal)
+                v.extend(edits.iter().skip(1).filter(|e| thorough || matches!(e, Edit::Write(1) | Edit::Write(3) | Edit::Remove)).map(|e| Some(*e)));
                 v
             } else {
                 vec![None]
